@@ -622,6 +622,30 @@ def shrink(env, case, kinds):
     return best
 
 
+def fresh_fails(prelude, case, kinds):
+    """does the violation show on a NEW database (empty per-entity statement caches) after running `prelude` first?"""
+    env = Env()
+    try:
+        for c in prelude:
+            try: run_real(env, c)
+            except Exception: return False
+        env.violations = []
+        try: trace, _ = run_real(env, case)
+        except Exception: return False
+        return bool(({v['kind'] for v in env.violations} | {b['kind'] for b in commit_oracle(trace)}) & kinds)
+    finally:
+        env.close()
+
+
+def find_prelude(cases, idx, small, kinds):
+    """the earlier sessions of this process that the failure depends on (warm caches): none, one earlier case, or all of them"""
+    if fresh_fails([], small, kinds): return []
+    for j in range(idx - 1, max(-1, idx - 80), -1):
+        if fresh_fails([cases[j]], small, kinds): return [cases[j]]
+    hist = cases[max(0, idx - 80):idx]
+    return hist if fresh_fails(hist, small, kinds) else None
+
+
 def run_cases(ctx, env, cases, label, follow=True):
     results = []; diverged = []
     for case in cases:
@@ -633,9 +657,19 @@ def run_cases(ctx, env, cases, label, follow=True):
             continue
         viol = list(env.violations) + commit_oracle(trace)
         results.append((case, trace, final_rows, viol))
-    reqs = [model_request(case, [seg['t'] for seg in trace]) for case, trace, _, _ in results]
+        if viol and len([r for r in results if r[3]]) <= 3:
+            # shrink now, while the process state (statement caches) is the one that produced the failure
+            vkinds = {v['kind'] for v in viol}
+            small = shrink(env, case, vkinds)
+            env.violations = []
+            trace2, _ = run_real(env, small)
+            viol2 = list(env.violations) + commit_oracle(trace2)
+            prelude = find_prelude(cases, len(results) - 1, small, vkinds)
+            results[-1] = (case, trace, final_rows, viol, small, (viol2 or viol)[0], prelude)
+    reqs = [model_request(r[0], [seg['t'] for seg in r[1]]) for r in results]
     mouts = ctx.driver('C20', reqs) if ctx.driver.ok else [None] * len(reqs)
-    for (case, trace, final_rows, viol), mout in zip(results, mouts):
+    for r, mout in zip(results, mouts):
+        case, trace, final_rows, viol = r[:4]
         ccase = canon_case(case)
         kinds = sorted({s['res'] for s in trace})
         ctx.case(ccase, nontrivial=len(trace) > 2, kind=label)
@@ -656,20 +690,18 @@ def run_cases(ctx, env, cases, label, follow=True):
         for s in trace:
             if s['res'].startswith('crash'):
                 ctx.divergence('a worker thread raised an unexpected exception', ccase, impl=s['v'])
-        if viol:
-            vkinds = {v['kind'] for v in viol}
-            small = shrink(env, case, vkinds)
-            env.violations = []
-            trace2, _ = run_real(env, small)
-            viol2 = list(env.violations) + commit_oracle(trace2)
-            v0 = (viol2 or viol)[0]
+        if viol and len(r) > 4:
+            small, v0, prelude = r[4], r[5], r[6]
             what = {'stale-read': 'an UPDATE was applied although an attribute the session had read (and not overwritten) was changed by another committed transaction',
                     'lost-update': 'lost update: an UPDATE was applied on top of a committed change to the attribute that the session had read before overwriting it',
                     'failed-session-committed': 'a session that failed with an optimistic-check / repeatable-read error changed the committed rows',
                     'commit-not-exact': 'the committed rows changed other than by the UPDATEs of the committing transaction',
                     'refused-update-not-raised': 'an optimistic UPDATE matched no row (a read attribute was changed underneath) but the session did not fail with OptimisticCheckError'}[v0['kind']]
-            ctx.violation(what, canon_case(small), observed=v0, expected='the UPDATE is refused (OptimisticCheckError) and nothing is committed',
-                          key='%s:%s' % (v0['kind'], v0.get('attr_kind', '-')))
+            inp = canon_case(small)
+            if prelude: inp['prelude'] = [canon_case(c) for c in prelude]; what += ' (after the earlier sessions in `prelude` ran in the same process: warm statement caches)'
+            if prelude is None: inp['note'] = 'not reproduced on a fresh database from the last 80 earlier cases; depends on longer process history'
+            ctx.violation(what, inp, observed=v0, expected='the UPDATE is refused (OptimisticCheckError) and nothing is committed',
+                          key='%s:%s%s' % (v0['kind'], v0.get('attr_kind', '-'), ':warm-cache' if prelude or prelude is None else ''))
         if mout is not None:
             d = compare(case, trace, final_rows, mout)
             if d is not None:
@@ -684,9 +716,12 @@ def run_cases(ctx, env, cases, label, follow=True):
 
 def run(ctx, extra_cases=()):
     if not ctx.driver.ok: ctx.note('driver unavailable: correspondence skipped, oracle only')
+    if extra_cases:
+        env0 = Env()                                # the recorded sessions, in order, on a new database
+        try: run_cases(ctx, env0, list(extra_cases), 'replay')
+        finally: env0.close()
     env = Env()
     try:
-        if extra_cases: run_cases(ctx, env, list(extra_cases), 'replay')
         corpus = os.path.join(ponyutil.ROOT, 'harness', 'corpus', 'C20')
         if os.path.isdir(corpus):
             cs = []
@@ -711,6 +746,8 @@ def load_case(d):
 
 
 def replay(ctx, data):
-    try: cases = [load_case(data)]
+    try:
+        inp = data.get('input', data)
+        cases = [load_case(c) for c in inp.get('prelude', [])] + [load_case(inp)]
     except Exception: cases = []
     run(ctx, extra_cases=cases)
